@@ -42,6 +42,9 @@ func TestC01(t *testing.T) {
 		h.Exec(0, p, nil, after)
 		return
 	}
+	if run.Shard == 0 {
+		longRelays(run)
+	}
 	n := run.Scale(3000, 200000)
 	profiles := []prog.Profile{
 		{MinTypes: 2, MaxTypes: 4, MinOps: 15, MaxOps: 50, Async: true, Scripts: true, FewClasses: true},
